@@ -102,6 +102,11 @@ R17_RE = re.compile(
     r"let\s+(?P<var>[A-Za-z_][A-Za-z_0-9]*)\s*=\s*decoder\s*\.decode::<(?P<ty>[^>;]+)>\((?P<plugin>[^;()]*?)\)\s*\.expect\((?P<msg>\"[^\"]*\")\);")
 
 
+R17B_RE = re.compile(
+    r"let\s+mut\s+decoder\s*=\s*PostcardDecoder::new\(\s*std::io::Cursor::new\(\s*(?P<src>[^;]*?)\s*,?\s*\)\s*,?\s*\);\s*"
+    r"Some\(\s*decoder\s*\.decode::<(?P<ty>[^>;]+)>\((?P<plugin>[^;()]*?)\)\s*\.expect\((?P<msg>\"[^\"]*\")\)\s*,?\s*\)")
+
+
 def apply_r17(text, log, ctx):
     """R17: the idiom `let mut decoder = PostcardDecoder::new(std::io::Cursor::new(SRC)); let V = decoder.decode::<T>(PLUGIN).expect(MSG);`
     becomes `let V = verif_postcard_decode::<T, _>(SRC, PLUGIN);` -- an opaque call carrying C12's Decode contract on a complete
@@ -110,7 +115,13 @@ def apply_r17(text, log, ctx):
         new = f"let {m.group('var')} = verif_postcard_decode::<{m.group('ty').strip()}, _>({m.group('src').strip()}, {m.group('plugin').strip()});"
         log.append({"rule": "R17", "in": ctx, "before": re.sub(r"\s+", " ", m.group(0)), "after": new})
         return new
-    return R17_RE.sub(rep, text)
+    text = R17_RE.sub(rep, text)
+
+    def rep2(m):
+        new = f"Some(verif_postcard_decode::<{m.group('ty').strip()}, _>({m.group('src').strip()}, {m.group('plugin').strip()}))"
+        log.append({"rule": "R17", "in": ctx, "before": re.sub(r"\s+", " ", m.group(0)), "after": new})
+        return new
+    return R17B_RE.sub(rep2, text)
 
 
 R11A_RE = re.compile(r"\b(u16|u32|u64|u128|usize|i16|i32|i64|i128|isize)::from_le_bytes\(")
